@@ -1833,3 +1833,78 @@ def filters_never_dropped(ctx, rule):
                'filter (filter_dict[key] = value for every non-dict value, '
                'filter_by(**filter_dict) whenever it is not empty)',
                ctx.loc(f))
+
+
+def rpc_client_payload_as_given(ctx, rule):
+    """The RPC clients (mistral.rpc.clients) put the arguments of the caller
+    on the wire as they were given: every keyword of the send is a parameter
+    of the method (not re-bound on the way), a constant, or `<parameter> or
+    <empty literal>` (the None -> {} default of the two input dicts).  A
+    payload that is filtered or rebuilt in the client (dropping None-valued
+    execution parameters, say) makes the RPC path of an operation differ
+    from the in-process path."""
+    prog = ctx.prog
+    n = 0
+    for q, f in sorted(prog.funcs.items()):
+        if f.module != 'mistral.rpc.clients' or not f.cls:
+            continue
+        cfg = None
+        aliases = set()
+        for x in own_nodes(f.node):
+            if isinstance(x, ast.Assign) and isinstance(x.targets[0],
+                                                        ast.Name) and any(
+                    isinstance(y, ast.Attribute) and
+                    y.attr in ('sync_call', 'async_call')
+                    for y in ast.walk(x.value)):
+                aliases.add(x.targets[0].id)
+        for c in own_nodes(f.node):
+            if not isinstance(c, ast.Call):
+                continue
+            is_send = (isinstance(c.func, ast.Attribute) and
+                       c.func.attr in ('sync_call', 'async_call')) or \
+                      (isinstance(c.func, ast.Name) and c.func.id in aliases)
+            if not is_send:
+                continue
+            cfg = cfg or ctx.cfg(f)
+            node = cfg.node_of(c)
+            bad = []
+            a_ = f.node.args
+            pnames = set(f.params) | {x.arg for x in (a_.vararg, a_.kwarg)
+                                      if x is not None}
+            kws = list(c.keywords)
+            # **local where local = {...literal...}: its entries count
+            for k in list(kws):
+                if k.arg is None and isinstance(k.value, ast.Name) and \
+                        k.value.id not in pnames:
+                    ds = [x.value for x in own_nodes(f.node)
+                          if isinstance(x, ast.Assign) and
+                          dotted(x.targets[0]) == k.value.id]
+                    if len(ds) == 1 and isinstance(ds[0], ast.Dict):
+                        kws.remove(k)
+                        kws += [ast.keyword(arg=getattr(kk, 'value', '?'),
+                                            value=vv)
+                                for kk, vv in zip(ds[0].keys, ds[0].values)]
+            for k in kws:
+                v = k.value
+                if isinstance(v, ast.BoolOp) and isinstance(v.op, ast.Or) \
+                        and len(v.values) == 2 and \
+                        isinstance(v.values[1], (ast.Dict, ast.List)) and \
+                        not (getattr(v.values[1], 'keys', None) or
+                             getattr(v.values[1], 'elts', None)):
+                    v = v.values[0]
+                if isinstance(v, ast.Constant):
+                    continue
+                if isinstance(v, ast.Attribute) and \
+                        (dotted(v) or '').startswith('self.'):
+                    continue
+                if isinstance(v, ast.Name) and v.id in pnames and \
+                        U.reaching_defs(cfg, v.id).get(node.id, set()) <= \
+                        {'param'}:
+                    continue
+                bad.append('%s=%s' % (k.arg or '**', norm(k.value, 60)))
+            n += 1
+            rule.check(not bad, ctx.construct(f, extra='payload as given'),
+                       'the request is sent with %s: not the argument the '
+                       'caller passed' % bad, ctx.loc(f, c))
+    if n < 12:
+        raise AnalysisError('RPC clients: %d sends found' % n)
